@@ -88,8 +88,9 @@ Definition agree (c : case) : bool :=
 (* A classic histogram series, in the sense of the property: a float series under a
    `TYPE <n> histogram` line named n_bucket (with a parseable, non-NaN le), n_count or n_sum. *)
 Inductive role := RBucket (le : num) | RCount | RSum.
-Definition role_of (tab : list (string * num)) (typ : Z) (bname : string) (l : labels) : option (string * role) :=
-  if negb (typ =? T_HISTOGRAM) then None
+Definition role_of (gh : bool) (tab : list (string * num)) (typ : Z) (bname : string) (l : labels) : option (string * role) :=
+  (* [gh]: protobuf payload, where GAUGE_HISTOGRAM families are converted as well *)
+  if negb ((typ =? T_HISTOGRAM) || (gh && (typ =? T_GAUGE_HISTOGRAM))) then None
   else let '(suf, name) := base_name (lget l NAME) in
        if negb (String.eqb name bname) then None
        else match suf with
@@ -109,18 +110,18 @@ Definition role_of (tab : list (string * num)) (typ : Z) (bname : string) (l : l
 Record member := mkM { m_fam : Z; m_key : labels; m_name : string; m_role : role; m_s : sample; m_v : num }.
 
 (* annotate the base stream: for every entry, Some member if it is a classic histogram series *)
-Fixpoint annotate (tab : list (string * num)) (fam typ : Z) (bname : string) (es : list bentry)
+Fixpoint annotate (gh : bool) (tab : list (string * num)) (fam typ : Z) (bname : string) (es : list bentry)
   : list (bentry * option member) :=
   match es with
   | [] => []
-  | BType n t :: r => (BType n t, None) :: annotate tab (fam + 1) t n r
+  | BType n t :: r => (BType n t, None) :: annotate gh tab (fam + 1) t n r
   | BSeries s v :: r =>
       (BSeries s v,
-       match role_of tab typ bname (s_lset s) with
+       match role_of gh tab typ bname (s_lset s) with
        | Some (name, ro) => Some (mkM fam (without (s_lset s) [LE]) name ro s v)
        | None => None
-       end) :: annotate tab fam typ bname r
-  | e :: r => (e, None) :: annotate tab fam typ bname r
+       end) :: annotate gh tab fam typ bname r
+  | e :: r => (e, None) :: annotate gh tab fam typ bname r
   end.
 
 Definition same_hist (a b : member) : bool := (m_fam a =? m_fam b) && labels_eqb (m_key a) (m_key b).
@@ -215,7 +216,7 @@ Fixpoint match_all (es : list expect) (os : list oentry) : bool :=
 
 
 Definition holds (c : case) : bool :=
-  let ann := annotate (c_letab c) 0 (-1) EmptyString (c_base c) in
+  let ann := annotate (c_proto c) (c_letab c) 0 (-1) EmptyString (c_base c) in
   let ms := flat_map (fun x => match snd x with Some m => [m] | None => [] end) ann in
   let nats := natives 0 (c_base c) in
   (* one custom-bucket histogram per classic histogram without a native one, with its content *)
